@@ -67,7 +67,7 @@ func (b *Batch) CPath(pi *ProgInfo) string     { return filepath.Join(b.Dir, pi.
 func (b *Batch) Generate(worker int) error {
 	var keep []*ProgInfo
 	for _, pi := range b.Progs {
-		if err := os.WriteFile(b.WuffsPath(pi), []byte(pi.P.Src), 0o644); err != nil {
+		if err := os.WriteFile(b.WuffsPath(pi), []byte(pi.Src), 0o644); err != nil {
 			return err
 		}
 		var res string
@@ -168,23 +168,23 @@ func (pi *ProgInfo) emitProgram(sb *strings.Builder) {
 		fmt.Fprintf(sb, "static void cd_call_%s_%d(cd_args* a) {\n", pkg, mi.Index)
 		var args []string
 		args = append(args, "&cd_obj_"+pkg)
-		for i, a := range mi.Fn.Args {
+		for i := range mi.ArgNames {
 			switch mi.Kinds[i] {
 			case 'i':
-				args = append(args, fmt.Sprintf("(%s)(a->v[%d].i)", cIntType(a.Typ), i))
+				args = append(args, fmt.Sprintf("(%s)(a->v[%d].i)", mi.ArgCTypes[i], i))
 			case 's':
 				args = append(args, fmt.Sprintf("a->v[%d].s", i))
 			case 'r', 'w':
 				args = append(args, fmt.Sprintf("&a->v[%d].io", i))
 			}
 		}
-		call := fmt.Sprintf("%s__%s(%s)", typ, mi.Fn.Name, strings.Join(args, ", "))
+		call := fmt.Sprintf("%s__%s(%s)", typ, mi.Name, strings.Join(args, ", "))
 		switch mi.Ret {
 		case 's':
 			fmt.Fprintf(sb, "  cd_ret_status(%s);\n", call)
 		case 'i':
 			cast := "(uint64_t)"
-			if mi.Fn.Out.Signed {
+			if mi.RetSigned {
 				cast = "(uint64_t)(int64_t)"
 			}
 			fmt.Fprintf(sb, "  cd_item_int(\"ret\", %s(%s));\n", cast, call)
@@ -196,17 +196,17 @@ func (pi *ProgInfo) emitProgram(sb *strings.Builder) {
 	fmt.Fprintf(sb, "static const cd_method cd_methods_%s[] = {\n", pkg)
 	for _, mi := range pi.Methods {
 		var names []string
-		for _, a := range mi.Fn.Args {
-			names = append(names, strconv.Quote(a.Name))
+		for _, a := range mi.ArgNames {
+			names = append(names, strconv.Quote(a))
 		}
 		if len(names) == 0 {
 			names = append(names, "0")
 		}
 		co := 0
-		if mi.Fn.Effect.Coroutine() {
+		if mi.Coroutine {
 			co = 1
 		}
-		fmt.Fprintf(sb, "  {%q, %d, {%s}, %q, %d, cd_call_%s_%d},\n", mi.Fn.Name, len(mi.Fn.Args), strings.Join(names, ", "), mi.Kinds, co, pkg, mi.Index)
+		fmt.Fprintf(sb, "  {%q, %d, {%s}, %q, %d, cd_call_%s_%d},\n", mi.Name, len(mi.ArgNames), strings.Join(names, ", "), mi.Kinds, co, pkg, mi.Index)
 	}
 	sb.WriteString("};\n")
 	fmt.Fprintf(sb, "static const cd_prog cd_prog_%s = {%q, &cd_obj_%s, sizeof(cd_obj_%s), cd_init_%s, cd_dump_%s, %d, cd_methods_%s};\n",
@@ -507,11 +507,14 @@ func CompareTraces(c, i [][]string) *Divergence {
 // Diagnose re-runs one history of one program with full traces on both sides.
 func (b *Batch) Diagnose(cfg Config, prog int, calls []interp.CallSpec) (div *Divergence, problem string) {
 	pi := b.Progs[prog]
-	text, prob := b.Trace(cfg, prog, HistoryScript(pi, calls))
-	iblocks, iprob := ReplayInterp(pi, calls)
+	if err := pi.Acquire(); err != nil {
+		return nil, err.Error()
+	}
+	iblocks, masks, iprob := ReplayInterp(pi, calls)
 	if iprob != "" {
 		return nil, iprob
 	}
+	text, prob := b.Trace(cfg, prog, HistoryScript(pi, calls, masks))
 	div = CompareTraces(SplitTrace(text), iblocks)
 	if div == nil && prob != "" {
 		return nil, "C driver in trace mode: " + prob
